@@ -240,3 +240,24 @@ def shard_fresh(sh):
         outs.append(p.stdout.strip().splitlines()[-1])
     sh.check('fresh-process-reproducible', len(set(outs)) == 1, 'fresh-processes-produce-different-data', lambda: {'digests': outs})
     sh.case(('fresh', sh.seed), True, 'fresh-process', sample={'digests': outs[:2]})
+    # the command-line generator task, twice, in fresh processes: same file, declared header and row count
+    import hashlib
+    files = []
+    for i in range(2):
+        wd = os.path.join(sh.scratch, 'cli-%d' % i)
+        os.makedirs(wd, exist_ok=True)
+        env = dict(os.environ, PYTHONHASHSEED=str(10 + i))
+        p = subprocess.run([core.PY, '-m', 'outrank', '--task', 'data_generator', '--num_synthetic_features', '35', '--num_synthetic_rows', '400', '--output_synthetic_df_name', 'gen_out'],
+                           cwd=wd, env=env, stdout=subprocess.PIPE, stderr=subprocess.PIPE, timeout=900, text=True)
+        path = os.path.join(wd, 'gen_out', 'data.csv')
+        if p.returncode != 0 or not os.path.exists(path):
+            sh.fail('generator-task-csv', 'cli-data_generator:failed', {'returncode': p.returncode, 'stderr': p.stderr[-600:]})
+            return
+        raw = open(path, 'rb').read()
+        files.append(hashlib.sha256(raw).hexdigest())
+        lines = raw.decode().strip().split('\n')
+        good = lines[0].split(',') == ['f%d' % j for j in range(35)] + ['label'] and len(lines) == 401 and all(len(l.split(',')) == 36 for l in lines[1:])
+        needle_ok = all(l.split(',')[30] == l.split(',')[35] for l in lines[1:]) and {l.split(',')[35] for l in lines[1:]} == {'0', '1'}
+        sh.check('generator-task-csv', good and needle_ok, 'cli-data.csv-wrong-shape-or-label', lambda: {'header': lines[0][:80], 'rows': len(lines) - 1, 'first': lines[1][:120]})
+    sh.check('fresh-process-reproducible', files[0] == files[1], 'cli-generator-not-reproducible', lambda: {'sha256': files})
+    sh.case(('cli-generator', sh.seed), True, 'cli-data_generator', sample={'sha256': files[0]})
